@@ -93,7 +93,49 @@ def check_minmax(rep, case, text, P, finest):
     extra = [n for n in rows if n not in names and n.strip() != ""]
     if extra:
         bad.append(f"table lists {extra} which are not fields")
+    LAST_ROWS.clear(); LAST_ROWS.update(rows)
     return bad, [names.index(o) if o in names else None for o in order]
+
+
+LAST_ROWS = {}        # rows of the table parsed by the last call of check_minmax
+
+
+def enc(x):
+    """a float for the Lean extrema model: nan / inf / -inf / exact rational"""
+    from fractions import Fraction
+    x = float(x)
+    if x != x: return "nan"
+    if x == float("inf"): return "inf"
+    if x == float("-inf"): return "-inf"
+    f = Fraction(x)
+    return [f.numerator, f.denominator]
+
+
+def dec(v):
+    if v == "nan": return float("nan")
+    if v == "inf": return float("inf")
+    if v == "-inf": return float("-inf")
+    return v[0] / v[1]
+
+
+def extrema_tie(rep, case, P, finest, leanio):
+    """the entries of the table against the Lean extrema model (numpy's NaN / inf semantics; proved to be the extrema over
+    every box of every level) formatted the way the tool formats them"""
+    names = list(dedup_names(P["fields"]))
+    reqs = []
+    for k, nm in enumerate(names):
+        reqs.append({"op": "extrema", "finest": finest, "levels": [[enc(r[k]) for r in lev["mins"]] for lev in P["levels"]]})
+        reqs.append({"op": "extrema", "finest": finest, "levels": [[enc(r[k]) for r in lev["maxs"]] for lev in P["levels"]]})
+    rs = leanio.driver(reqs)
+    for k, nm in enumerate(names):
+        if len(LAST_ROWS.get(nm, [])) != 1:
+            continue
+        got = LAST_ROWS[nm][0]
+        want = (fmt(dec(rs[2 * k]["min"])).strip(), fmt(dec(rs[2 * k + 1]["max"])).strip())
+        if (got[0], got[1]) == want:
+            rep.agree()
+        else:
+            rep.tie(f"min/max entries of field {nm!r} differ from the Lean extrema model", case, {"real": got[:2], "model": want})
 
 
 def marinated_differs(marinate, path, truth):
@@ -182,6 +224,7 @@ def run_spec(ctx, rep, spec, model, only=None):
                     rep.fail(b, case)
                 if not bad and model:
                     reqs.append((case, order, {"op": "menu_table", "n": nf}))
+                    extrema_tie(rep, case, P, "-f" in flags, leanio)
             elif tool == "menu-desc":
                 out = run_main(menucli, ["menu", path, "-d"])
                 want = sorted({classify(f)[0] for f in names}, key=str.lower)
